@@ -242,6 +242,25 @@ func (t *Task) Delete(pg wpg.Conn, n uint64) error {
 	if err != nil {
 		return fmt.Errorf("deleting block from task table: %w", err)
 	}
+	// Rows are written in batches, so the newest remaining position can
+	// be more than one block below n. Rows above it would lie beyond the
+	// recorded position and be inserted again by the next step.
+	const lq = `
+		select num
+		from shovel.task_updates
+		where src_name = $1
+		and ig_name = $2
+		order by num desc
+		limit 1
+	`
+	var prev uint64
+	switch err := pg.QueryRow(t.ctx, lq, t.srcName, t.destConfig.Name).Scan(&prev); {
+	case errors.Is(err, pgx.ErrNoRows):
+	case err != nil:
+		return fmt.Errorf("finding previous position: %w", err)
+	case prev+1 < n:
+		n = prev + 1
+	}
 	err = t.dests[0].Delete(t.ctx, pg, n)
 	if err != nil {
 		return fmt.Errorf("deleting block: %w", err)
